@@ -103,6 +103,9 @@ func ParseLevelRange(s string) (LevelRange, error) {
 	)
 
 	ss := strings.Split(s, "~")
+	if len(ss) > 2 {
+		return LevelRange{}, errutil.Explain(nil, "invalid log level range: %q", s)
+	}
 	minLevel, ok = levelRegistry[strings.ToUpper(ss[0])]
 	if !ok {
 		return LevelRange{}, errutil.Explain(nil, "invalid log level: %q", ss[0])
